@@ -151,6 +151,15 @@ def explore(job, on_path, tier='quick', max_paths=40000, max_seconds=900, offset
                 modrm, sibb = sym[0].t, sym[1].t
                 is_sib = z3.And(z3.Extract(2, 0, modrm) == 4, z3.Extract(7, 6, modrm) != 3)
                 eng.assume(z3.Implies(is_sib, instr._in_set(sibb, SIB_REPS)))
+        if sibmode == 'min' and _row_has_modrm(opc, last):
+            # a thin slice of the ModRM space (every reg value; few rm / SIB forms): for clauses that cannot
+            # depend on the addressing form
+            modrm, sibb = sym[0].t, sym[1].t
+            mod, rm = z3.Extract(7, 6, modrm), z3.Extract(2, 0, modrm)
+            eng.assume(z3.Or(z3.And(mod == 3, z3.Or(rm == 0, rm == 5)), z3.And(mod == 0, z3.Or(rm == 0, rm == 4, rm == 5)),
+                             z3.And(mod == 1, z3.Or(rm == 4, rm == 5)), z3.And(mod == 2, rm == 0)))
+            if 0x67 not in prefixes or _row_is_mmx(opc, last):
+                eng.assume(z3.Implies(z3.And(rm == 4, mod != 3), z3.Or(sibb == 0x24, sibb == 0x25)))
         data = SBytes(items)
         d = Desc()
         d.data = data
@@ -240,9 +249,16 @@ def extreme_witnesses(eng, d):
         try:
             vals = []
             okv = True
+            fill = 0xFF if want_max else 0x00
             for x in d.data.items:
                 if not isinstance(x, SInt):
                     vals.append(x)
+                    continue
+                # most bytes are unconstrained by the path: try the extreme value in one query
+                r = eng._check(x.t == bvv(fill))
+                if r == 'sat':
+                    eng.s.add(x.t == bvv(fill))
+                    vals.append(fill)
                     continue
                 v = 0
                 for b in range(7, -1, -1):
